@@ -585,7 +585,7 @@ def run_case(func, kwargs, opts):
         tv = dict(runs=0, mismatches=[])
         if opts.get("validate", True):
             for p in paths[:opts.get("validate_paths", 4)]:
-                if p["status"] != "ok" or p.get("tv_values") is None:
+                if p["status"] not in ("ok", "inconclusive") or p.get("tv_values") is None:
                     continue
                 Tc, err = run_concrete(func, kwargs, p["tv_values"])
                 tv["runs"] += 1
@@ -593,6 +593,10 @@ def run_case(func, kwargs, opts):
                 for o in Tc.obligations:
                     ss = sym.get(o["label"])
                     if ss is None:
+                        # the symbolic run of this path stopped before reaching the obligation (unmodelled operation): a violation
+                        # observed by the float run at the path's seed is still a violation of the real code
+                        if p["status"] == "inconclusive" and o["status"] == "violated" and o["label"] != "!exception":
+                            tv["mismatches"].append(dict(label=o["label"], sym="inconclusive", conc=o["detail"][:300], values=p["tv_values"]))
                         continue
                     if ss.startswith("holds") and o["status"] == "violated":
                         tv["mismatches"].append(dict(label=o["label"], sym=ss, conc=o["detail"][:300], values=p["tv_values"]))
